@@ -104,7 +104,7 @@ def sessions_for(tier, rng):
     # 1. exhaustive splits of short byte strings: every prefix length n <= NS of valid messages,
     #    all 2^(n-1) splits into non-empty buffers, both padding modes
     NS = 11 if quick else 14
-    for _ in range(6 if quick else 40):
+    for _ in range(12 if quick else 40):
         padded = rng.random() < 0.7
         m = S.valid_message(rng, padded)
         if rng.random() < 0.3:
@@ -115,7 +115,7 @@ def sessions_for(tier, rng):
                 add("short-allsplits", len_lines(m[:n], sp[i:i + 512], padded))
     # 2. whole messages: all 2^7 splits of the first 8 bytes (the header check looks at bytes 0-3),
     #    remainder in one further buffer or random pieces
-    for _ in range(25 if quick else 300):
+    for _ in range(120 if quick else 600):
         padded = rng.random() < 0.7
         m = gen_packet(rng, padded, rng.choice(["valid", "valid", "mutant", "prefix"]))
         if len(m) < 9:
@@ -130,7 +130,7 @@ def sessions_for(tier, rng):
                 sps.append(head + tail)
         add("msg-headsplits", len_lines(m, sps, padded))
     # 3. generated packets x random splits (1..6 buffers) + lookups
-    N = 2500 if quick else 40000
+    N = 12000 if quick else 80000
     dist = ["valid"] * 5 + ["mutant"] * 5 + ["prefix"] * 2 + ["big", "bigmutant", "headerish", "headerish", "random"]
     for _ in range(N):
         cfg, compat, padded = rand_cfg(rng)
@@ -139,13 +139,15 @@ def sessions_for(tier, rng):
         lines = [cfg]
         sps = [[len(m)]] + [S.rand_split(rng, len(m), 6) for _ in range(7)] if len(m) else [[0]]
         lines += len_lines(m, sps, padded)
+        if len(m) and rng.random() < 0.25:      # splits with zero-length buffers (fix 669dd63)
+            lines += len_lines(m, [S.rand_split(rng, len(m), 6, empties=True) for _ in range(2)], padded)
         if rng.random() < 0.3:
             lines += len_lines(m, sps[:2], not padded)
         if len(m) <= 600 or rng.random() < 0.2:
             lines += lookup_lines(rng, m, padded, compat)
         add(kind, lines)
     # 4. all prefixes of valid messages (one session per message)
-    for _ in range(40 if quick else 500):
+    for _ in range(150 if quick else 800):
         padded = rng.random() < 0.7
         m = S.valid_message(rng, padded, nmax=5, maxvar=24)
         lines = []
